@@ -337,8 +337,10 @@ def insertChild (s : St) (p c : Nat) (ref : Option Nat) : St × Res :=
   match s.find p, s.find c with
   | some pn, some cn =>
     if !canHaveChildren pn.kind then (s, .err .hierarchy) else
-    -- the document node itself has no owner document: as an argument it is "of another document"
-    if c == s.doc.id || ref == some s.doc.id then (s, .err .wrongDoc) else
+    -- the document node itself has no owner document: as a NEW child it is "of another document"; as a reference it is
+    -- simply not a child (NOT_FOUND_ERR, `refMissing`)
+    if c == s.doc.id then (s, .err .wrongDoc) else
+    if ref == some s.doc.id then (s, .err .notFound) else
     if refMissing pn ref then (s, .err .notFound) else
     if s.isAncestorOrSelf c p then (s, .err .hierarchy) else
     if !childAllowed pn.kind cn.kind then (s, .err .hierarchy) else
@@ -352,7 +354,8 @@ def removeChild (s : St) (p c : Nat) : St × Res :=
   match s.find p with
   | some pn =>
     if !canHaveChildren pn.kind then (s, .err .hierarchy) else
-    if c == s.doc.id then (s, .err .wrongDoc) else
+    -- the document node is nobody's child
+    if c == s.doc.id then (s, .err .notFound) else
     if !(pn.kids.any (·.id == c)) then (s, .err .notFound) else
     match s.detach c with
     | (s1, some x) => ({ s1 with detached := s1.detached ++ [x] }, .node c)
